@@ -5,11 +5,16 @@ C02 — Brotli decoding is exactly RFC 7932 (brotli.Reader).
 a parameter, loaded from /repo on every run), validated on every run against
 libbrotlidec AND brotli.Reader: verdict, output length and hash for every input of
 family brd, reject class on cuts of valid streams, and the 121 dictionary
-transforms against Go's transformWord.  There is no Go-shaped model of
-brotli.Reader's control flow, so unlike C01 there is no refinement theorem: the
-tie "brotli.Reader = specification" is a correspondence.  What is proved: the
-components brotli.Reader shares with modelled code, and sanity theorems that pin
-the specification's tables and its behaviour on the smallest streams.
+transforms against Go's transformWord.
+
+`Compress.Brotli.Impl` (+ ImplPrefix, ImplContext) is the Go-shaped model of
+/repo/brotli/reader.go, bit_reader.go, prefix.go, prefix_decoder.go, context.go and
+dict_decoder.go (Read loop with the toRead/err latch, resumable steps, readCommands
+with its labels and stepState re-entry, two-level prefix tables as Init builds them,
+context maps with RLE and the move-to-front short cut, ring of last distances, window
+with lazy growth), validated Read call by Read call against the real reader (family
+brr).  The second half of this file states its refinement to the specification, layer
+by layer (proofs: Compress/Proofs/BrImpl*.lean).
 Property theorems only.
 -/
 import Compress.Proofs.Window
@@ -17,6 +22,7 @@ import Compress.Proofs.BitIO
 import Compress.Proofs.PrefixTables
 import Compress.Proofs.BrotliSpec
 import Compress.Proofs.BrotliCut
+import Compress.Proofs.BrImplAll
 
 namespace Compress.Props.C02
 open Compress
@@ -97,5 +103,146 @@ theorem C02_spec_consumed (dict : ByteArray) (bits : Bits) (out : Array UInt8) (
     (h8 : bits.length % 8 = 0)
     (h : decodeBits dict bits = { out := out, verdict := .ok n }) : n ≤ bits.length ∧ n % 8 = 0 :=
   Compress.Proofs.BrotliCut.consumed_bounds dict bits out n h8 h
+
+/-! ## the Go-shaped model of brotli.Reader refines the specification -/
+
+-- (the closed-term decoders are tables of up to 256 codes: keep the elaborator from evaluating them
+-- whenever it looks at a statement that mentions them)
+attribute [local irreducible] Compress.Brotli.Impl.decWinBits Compress.Brotli.Impl.decCounts
+  Compress.Brotli.Impl.decMaxRLE
+
+open Compress.Proofs.BrImpl Compress Compress.Brotli in
+/-- **Layer (a), Read loop.** `Trace dict s X e`: the step machine started in `s` hands out exactly `X`
+    and then latches `e`, every silent step consuming input.  Whoever has a trace of the initial state
+    knows `Impl.run` for EVERY schedule of Read sizes (zero-length reads included, last entry positive):
+    all of `X`, in order, then `e`; the reader ends latched. -/
+theorem C02_read_loop (dict : ByteArray) (bytes full : List UInt8) (e : Impl.BErr)
+    (T : Trace dict (Impl.init bytes) full e) (sched : List Nat) (hs : ∀ n, sched.getLast? = some n → 0 < n)
+    (fuel : Nat) (hf : full.length + sched.length + 2 ≤ fuel) :
+    ∃ s', Impl.run dict fuel bytes sched = (full, some e, s') ∧ s'.toRead = [] ∧ s'.err = some e :=
+  Compress.Proofs.BrImpl.run_of_trace dict bytes full e T sched hs fuel hf
+
+open Compress.Proofs.BrImpl Compress Compress.Brotli in
+/-- **Layer (a), schedule independence.** Two schedules of Read sizes deliver the same bytes and end with the same error. -/
+theorem C02_schedule_independent (dict : ByteArray) (bytes full : List UInt8) (e : Impl.BErr)
+    (T : Trace dict (Impl.init bytes) full e) (s1 s2 : List Nat)
+    (h1 : ∀ n, s1.getLast? = some n → 0 < n) (h2 : ∀ n, s2.getLast? = some n → 0 < n)
+    (f1 f2 : Nat) (hf1 : full.length + s1.length + 2 ≤ f1) (hf2 : full.length + s2.length + 2 ≤ f2) :
+    (Impl.run dict f1 bytes s1).1 = (Impl.run dict f2 bytes s2).1 ∧
+    (Impl.run dict f1 bytes s1).2.1 = (Impl.run dict f2 bytes s2).2.1 :=
+  Compress.Proofs.BrImpl.run_schedule_independent dict bytes full e T s1 s2 h1 h2 f1 f2 hf1 hf2
+
+open Compress.Proofs.BrImpl Compress Compress.Brotli in
+/-- **Layer (a), prefix.** Whatever the schedule (zeros, a zero at the end) and however far the run got, what has been delivered is a prefix of the trace. -/
+theorem C02_read_prefix (dict : ByteArray) (bytes full : List UInt8) (e : Impl.BErr)
+    (T : Trace dict (Impl.init bytes) full e) (sched : List Nat) (fuel : Nat) :
+    (Impl.run dict fuel bytes sched).1 <+: full :=
+  Compress.Proofs.BrImpl.run_prefix dict bytes full e T sched fuel
+
+open Compress.Proofs.BrImpl Compress Compress.Brotli in
+/-- **Layer (a), sticky error.** Once the error is latched and nothing is pending, every further `Read` returns it and changes nothing. -/
+theorem C02_sticky_error (dict : ByteArray) (fuel : Nat) (s : Impl.State) (n : Nat) (e : Impl.BErr)
+    (hT : s.toRead = []) (hE : s.err = some e) : Impl.read dict (fuel+1) s n = (s, [], some e) :=
+  Compress.Proofs.BrImpl.read_latched dict fuel s n e hT hE
+
+open Compress.Proofs.BrImpl Compress Compress.Brotli in
+/-- **Layer (b), stream header.** WBITS through the table `decWinBits` (symbol 0 = the reserved pattern → corrupted) = section 9.1. -/
+theorem C02_stream_header : WinBitsSim := Compress.Proofs.BrImpl.winBitsSim
+
+open Compress.Proofs.BrImpl Compress Compress.Brotli in
+/-- **Layer (b), meta-block header.** ISLAST, ISLASTEMPTY, MNIBBLES, the reserved bit, MSKIPBYTES, MSKIPLEN, MLEN (with the shortest-form checks) and ISUNCOMPRESSED as `readBlockHeader` reads them = the header part of the specification's meta-block (`specHdr`, split off by `readMetaBlocks_succ`): both succeed at the same bit with the same fields, or both fail. -/
+theorem C02_block_header : SimRel HdrRel Impl.readHdr specHdr := Compress.Proofs.BrImpl.hdr_sim
+
+open Compress.Proofs.BrImpl Compress Compress.Brotli in
+/-- the specification's meta-block loop is "header, then body". -/
+theorem C02_spec_metablock_split (dict : ByteArray) (ws fuel : Nat) (ds : Dists) :
+    readMetaBlocks dict ws (fuel+1) ds = specHdr >>= specBody dict ws (readMetaBlocks dict ws fuel) ds :=
+  Compress.Proofs.BrImpl.readMetaBlocks_succ dict ws fuel ds
+
+open Compress.Proofs.BrImpl Compress Compress.Brotli in
+/-- **Layer (d), tables.** `prefixDecoder.Init(codes, assignCodes = true)` on ≥ 2 codes with increasing symbols below `n ≤ 2^27`, lengths 1..15 and Kraft sum one succeeds, and `ReadSymbol` on its two-level table (9-bit first level, link tables numbered by reversed prefix) reads exactly what the specification's counting decoder reads for the canonical code with these lengths. -/
+theorem C02_prefix_tables : InitTreeRel := Compress.Proofs.BrImpl.initTreeRel
+
+open Compress.Proofs.BrImpl Compress Compress.Brotli in
+/-- **Layer (d), refusal.** Symbols not increasing or Kraft sum not one: `Init` panics (never `io.EOF`). -/
+theorem C02_prefix_tables_refuse : InitFails := Compress.Proofs.BrImpl.initFails
+
+open Compress.Proofs.BrImpl Compress Compress.Brotli in
+/-- **Layer (d), prefix code definitions.** `ReadPrefixCode` (simple codes with the sorting networks, complex codes with the code-length code, repeat codes 16/17 and their modification of the previous repeat, the space accounting, `len(codes) < 2`, `Init`) = sections 3.4/3.5 of the specification for every alphabet of 2..704 symbols: both succeed at the same bit with equivalent decoders whose symbols lie in the alphabet, or both fail. -/
+theorem C02_prefix_codes : PrefixSim := Compress.Proofs.BrImpl.prefixSim
+
+open Compress.Proofs.BrImpl Compress Compress.Brotli in
+/-- **Layer (e), context maps.** NTREES, RLEMAX, the run-length coded map and the inverse move-to-front transform — including `MoveToFront.Decode`'s short cut of resetting only the first `256 - tail` dictionary entries — = section 7.3. -/
+theorem C02_context_map (mtf : Impl.Mtf) (hm : MtfOK mtf) (size : Nat) :
+    SimRel (fun (a : Nat × Array Nat × Impl.Mtf) (b : Nat × Array Nat) =>
+        a.1 = b.1 ∧ a.2.1 = b.2 ∧ MtfOK a.2.2 ∧ a.2.1.size = size ∧ 1 ≤ a.1 ∧ a.1 ≤ 256 ∧ ∀ v ∈ a.2.1, v < a.1)
+      (do let nt ← Impl.readSymbol Impl.decCounts
+          let (cm, m') ← if nt ≥ 2 then Impl.readContextMap mtf size nt else pure (Array.replicate size 0, mtf)
+          pure (nt, cm, m'))
+      (Brotli.readContextMap size) :=
+  @Compress.Proofs.BrImpl.contextMap_sim Compress.Proofs.BrImpl.prefixSim (@Compress.Proofs.BrImpl.countsSim)
+    (@Compress.Proofs.BrImpl.maxRLESim) mtf hm size
+
+open Compress.Proofs.BrImpl Compress Compress.Brotli in
+/-- **Layer (e), block switch.** `readBlockSwitch` (type symbol 0 / 1 / t with the wrap by subtraction, the new count) = section 6. -/
+theorem C02_block_switch (bd : Impl.BlockDec) (b : Blocks) (h : BlkRel bd b) (h2 : 2 ≤ b.ntypes) :
+    SimRel (fun bd' b' => BlkRel bd' b' ∧ bd'.prefixes = bd.prefixes) (Impl.readBlockSwitch bd) (Brotli.readBlockSwitch b) :=
+  Compress.Proofs.BrImpl.blockSwitch_sim bd b h h2
+
+open Compress.Proofs.BrImpl Compress Compress.Brotli in
+/-- **Layer (e), distances.** Short codes through `distShortLUT` on the ring of last distances, direct codes, long codes through `distLongLUT` = section 4 (ring values positive: an invariant of the ring). -/
+theorem C02_distance (s : Impl.State) (h : Header) (c : Cmd) (sym : Nat)
+    (hnp : s.npostfix = h.npostfix) (hnd : s.ndirect = h.ndirect) (hp : h.npostfix ≤ 3)
+    (h0 : s.dists0 = c.d1) (h1 : s.dists1 = c.d2) (h2 : s.dists2 = c.d3) (h3 : s.dists3 = c.d4)
+    (hd1 : 0 < c.d1) (hd2 : 0 < c.d2) (hd3 : 0 < c.d3) (hd4 : 0 < c.d4)
+    (hsym : sym < 16 + h.ndirect + (48 <<< h.npostfix)) :
+    SimRel (fun (a : Int) (b : Option Nat) => (a ≤ 0 ∧ b = none) ∨ (0 < a ∧ b = some a.toNat))
+      (Impl.decodeDistance s sym) (Brotli.readDistance h c sym) :=
+  Compress.Proofs.BrImpl.decodeDistance_sim s h c sym hnp hnd hp h0 h1 h2 h3 hd1 hd2 hd3 hd4 hsym
+
+open Compress.Proofs.BrImpl Compress Compress.Brotli in
+/-- **Layer (e), static dictionary.** The word `copyStaticDict` computes (offset, index, transform number by shift) = section 8, for the 122,784-byte dictionary. -/
+theorem C02_static_word (sd : ByteArray) (hsd : sd.size = 122784) (cpyLen wordIdx : Nat) :
+    (match Impl.staticWord sd cpyLen wordIdx with
+     | .ok w => Brotli.dictionaryWord sd cpyLen wordIdx = some w
+     | .error e => e = .corrupted ∧ Brotli.dictionaryWord sd cpyLen wordIdx = none) :=
+  Compress.Proofs.BrImpl.staticWord_eq sd hsd cpyLen wordIdx
+
+open Compress.Proofs.BrImpl Compress Compress.Brotli in
+/-- **Layers (d)+(e), compressed meta-block header.** `readPrefixCodes` = `readCompressedHeader` from related states: both fail, or the model is ready for `readCommands` with tables, context maps, block decoders and ring corresponding to the specification's (`CmdRel`). -/
+theorem C02_compressed_header : PrefixCodesSim := Compress.Proofs.BrImpl.prefixCodesSim
+
+open Compress.Proofs.BrImpl Compress Compress.Brotli in
+/-- **Stream level (layers (b), (c) and the induction over meta-blocks).** Given the simulation of compressed meta-blocks, the reader model on `bytes` ends like the specification's `readStream`: accepted ⇒ `io.EOF` after exactly its output; rejected ⇒ another error with agreeing output. Stream header, meta-block headers, metadata and uncompressed meta-blocks (window writes, flushes at a full window, growth) and the end of the stream are handled here without hypotheses. -/
+theorem C02_stream_level (dict : ByteArray) (hC : CompressedSim dict) (bytes : List UInt8) :
+    Outcome dict (Impl.init bytes) [] (8 * bytes.length)
+      (readStream dict { bits := Bits.ofBytes bytes, used := 0, out := #[] }) :=
+  Compress.Proofs.BrImpl.stream_sim dict Compress.Proofs.BrImpl.winBitsSim hC bytes
+
+open Compress.Proofs.BrImpl Compress Compress.Brotli in
+/-- **C02, refinement theorem from the command-loop layer.** `hF : CommandsSim dict` is the one layer
+    not closed here: the simulation of `readCommands` (labels, window-full suspension and re-entry
+    through `stepState`) by the specification's non-resumable `readCommands`, from states related by
+    `CmdRel` (see Proofs/BrImplStreamDefs.lean for its exact statement).  Everything else — Read loop,
+    stream and meta-block headers, metadata and uncompressed meta-blocks, prefix tables and prefix code
+    definitions, context maps, block headers, the compressed meta-block header — is proved.
+    Conclusion, for every byte string and every schedule of Read sizes: the specification accepts ⇒ the
+    model delivers exactly its output and ends with `io.EOF` (and every unfinished run has delivered a
+    prefix); the specification rejects (and input bits + output bytes < 2^24: the specification caps a
+    single-type block at 2^24 symbols, the Go code and libbrotlidec do not) ⇒ the model ends with
+    another error and what it delivered agrees with the specification's output position by position. -/
+theorem C02_refines_spec_partial (dict : ByteArray) (hF : CommandsSim dict) (bytes : List UInt8) (sched : List Nat)
+    (hs : ∀ n, sched.getLast? = some n → 0 < n) :
+    (∀ n, (decode dict bytes).verdict = .ok n →
+      (∀ fuel, (decode dict bytes).out.size + sched.length + 2 ≤ fuel →
+        (Impl.run dict fuel bytes sched).1 = (decode dict bytes).out.toList ∧
+        (Impl.run dict fuel bytes sched).2.1 = some .eof) ∧
+      (∀ fuel, (Impl.run dict fuel bytes sched).1 <+: (decode dict bytes).out.toList)) ∧
+    ((∀ n, (decode dict bytes).verdict ≠ .ok n) → 8 * bytes.length + (decode dict bytes).out.size < 2 ^ 24 →
+      ∃ X e, e ≠ .eof ∧ Agree X (decode dict bytes).out.toList ∧
+        (∀ fuel, X.length + sched.length + 2 ≤ fuel →
+          (Impl.run dict fuel bytes sched).1 = X ∧ (Impl.run dict fuel bytes sched).2.1 = some e) ∧
+        (∀ fuel, (Impl.run dict fuel bytes sched).1 <+: X)) :=
+  Compress.Proofs.BrImpl.refines_of_commands dict hF bytes sched hs
 
 end Compress.Props.C02
